@@ -2037,17 +2037,28 @@ func constEvalSupportsBinary(op ir.BinaryOperator) bool {
 
 // involvesExprConstant checks if an expression references an ExprConstant (named constant).
 func (w *Writer) involvesExprConstant(handle ir.ExpressionHandle) bool {
+	return w.involvesExprConstantIn(handle, map[ir.ExpressionHandle]struct{}{})
+}
+
+// involvesExprConstantIn visits every expression once: without the visited set a
+// shared operand (`let a1 = a0 + a0; let a2 = a1 + a1; ...`) is walked once per
+// path, which is exponential in the length of the chain.
+func (w *Writer) involvesExprConstantIn(handle ir.ExpressionHandle, visited map[ir.ExpressionHandle]struct{}) bool {
 	if int(handle) >= len(w.currentFunction.Expressions) {
 		return false
 	}
+	if _, ok := visited[handle]; ok {
+		return false // already searched, nothing found below it
+	}
+	visited[handle] = struct{}{}
 	expr := &w.currentFunction.Expressions[handle]
 	switch k := expr.Kind.(type) {
 	case ir.ExprConstant:
 		return true
 	case ir.ExprBinary:
-		return w.involvesExprConstant(k.Left) || w.involvesExprConstant(k.Right)
+		return w.involvesExprConstantIn(k.Left, visited) || w.involvesExprConstantIn(k.Right, visited)
 	case ir.ExprUnary:
-		return w.involvesExprConstant(k.Expr)
+		return w.involvesExprConstantIn(k.Expr, visited)
 	}
 	return false
 }
